@@ -600,6 +600,17 @@ def cut_impl(mod_lines, marker):
     return None
 
 
+_CONV = [(re.compile(r"'l0\b"), "'a"), (re.compile(r"'l1\b"), "'b"), (re.compile(r"\bG0\b"), "T"), (re.compile(r"\bG1\b"), "U"),
+         (re.compile(r"\bN0\b"), "COUNT"), (re.compile(r"\bN1\b"), "N")]
+
+
+def conventional_names(src: str) -> str:
+    """the module of a `conventional_names` twin: the harness's parameter names replaced by 'a / 'b / T / U / COUNT / N throughout"""
+    for rx, to in _CONV:
+        src = rx.sub(to, src)
+    return src
+
+
 def build_genprobe():
     """the real generator sources of /repo's working tree compiled into a command-line probe"""
     src_dir = GENPROBE_DIR
@@ -673,6 +684,38 @@ class Corpus:
         n = len(self.queries)
         self.queries.append((n, k, kind, [str(a) for a in args], note))
         return n
+
+    def add_conventional_name_twins(self, limit=6, max_queries=150):
+        """Generic definitions of the corpus are repeated with the parameter names every Rust programmer writes — 'a, 'b, T, U, and const
+        parameters called COUNT and N — instead of the harness's 'l0, G0, N0 (which nothing collides with): same model item, same expected
+        observations.  Generated code that declares a lifetime / type / constant of its own under such a name (`fn try_as_x_ref<'a>`,
+        `const COUNT: usize`) captures or shadows the user's parameter (round 15)."""
+        import copy
+        base = [k for k, it in self.defs.items() if (it.tparams or it.lifetimes or it.cparams) and it.variants and "twin" not in self.meta[k]
+                and not self.meta[k].get("probe_only") and not self.meta[k].get("sibling") and not getattr(it, "via_macro", False)]
+        if not base:
+            return
+        qs_of = {}
+        for q in self.queries:
+            qs_of.setdefault(q[1], []).append(q)
+        # spread over the corpus, preferring one of each generic shape
+        seen_shapes, chosen = set(), []
+        for k in base:
+            it = self.defs[k]
+            shape = (bool(it.lifetimes), bool(it.tparams), bool(it.cparams), self.meta[k].get("family"))
+            if shape not in seen_shapes:
+                seen_shapes.add(shape)
+                chosen.append(k)
+        chosen = chosen[:limit]
+        for k in chosen:
+            it = copy.deepcopy(self.defs[k])
+            it.conventional_names = True
+            meta = dict(self.meta[k])
+            meta["family"] = "conventional-names/" + str(meta.get("family"))
+            fam = meta.pop("family")
+            k2 = self.add_def(it, family=fam, **meta)
+            for (n, _k, kind, args, note) in qs_of.get(k, [])[:max_queries]:
+                self.add_q(k2, kind, list(args), note=note)
 
     def add_hostile_twins(self, names, per_name=3, max_queries=120):
         """For each look-alike name (defs.HOSTILE) a few definitions of the corpus are repeated INSIDE a module that declares the
